@@ -35,7 +35,7 @@ REQUIRED = {"line.selects_entity_scenarios": {"quick": 8000, "thorough": 500000}
             "setup_teardown.never_skipped": {"quick": 40, "thorough": 2000}}
 REQUIRED_SEEN = {"entity_kind_addressed": ["feature", "rule", "outline", "row", "scenario", "line0", "other_line", "beyond_end"],
                  "argument_list_shape": ["DL", "LD", "LL", "DLD"], "wildcard_listfile_place": ["working_directory", "sub_directory"],
-                 "name_selection_shape": ["pattern_matches_the_empty_name_of_an_untitled_scenario", "together_with_a_file_location", "in_a_dry_run", "row_titles_rendered_from_placeholders", "row_added_in_before_feature"]}
+                 "name_selection_shape": ["pattern_matches_the_empty_name_of_an_untitled_scenario", "together_with_a_file_location", "in_a_dry_run", "row_titles_rendered_from_placeholders", "row_added_in_before_feature"], "locations_together_with": ["include_exclude_patterns"]}
 EXHAUSTIVE = True
 EXHAUSTIVE_SCOPE = "every line number 0..last+2 of every generated document"
 NSHARDS = {"quick": 16, "thorough": 16}
@@ -289,6 +289,24 @@ def run(spec, mon):
                                   lambda: dict(locations=texts, got=got, want=want))
                     except Exception as ex:
                         mon.check("files.per_file_selection", False, lambda: dict(locations=texts, error=repr(ex)))
+                    # ---- the same as the Runner takes it from a command line that ALSO has --include / --exclude patterns (which
+                    #      filter files and leave the addressed lines alone)
+                    if rng.random() < 0.4:
+                        from behave.configuration import Configuration as _Cfg
+                        from behave.runner import Runner as _Runner
+                        from behave.tag_expression import TagExpressionProtocol as _TEP
+                        pattern_args = rng.choice([["-i", "features"], ["--exclude=zzz"], ["-i", r"doc\d+", "-e", "nosuch"]])
+                        try:
+                            cfg_ = _Cfg(list(texts) + pattern_args, load_config=False)
+                            locs_r = _Runner(cfg_).feature_locations()
+                            got_r = [selected_ids(f) for f in parse_features(locs_r)]
+                            mon.seen("locations_together_with", "include_exclude_patterns")
+                            mon.check("files.per_file_selection", got_r == want,
+                                      lambda: dict(locations=texts, patterns=pattern_args, runner_locations=[str(x) for x in locs_r], got=got_r, want=want))
+                        except Exception as ex:
+                            mon.check("files.per_file_selection", False, lambda: dict(locations=texts, patterns=pattern_args, error=repr(ex)))
+                        finally:
+                            _TEP.use(_TEP.DEFAULT)
                     # ---- the same through a list file ---------------------------------------------------------
                     if rng.random() < 0.5:
                         lst = []
@@ -361,6 +379,25 @@ def run(spec, mon):
                                       lambda: dict(arguments=argv, shape="".join(shape), locations=texts, got=got3, want=want))
                         except Exception as ex:
                             mon.check("listfile.mixed_with_direct_locations", False, lambda: dict(arguments=argv, error=repr(ex)))
+            # ---- the command line handed over as ONE string (behave.__main__.main("..."), Configuration("...")): name patterns and
+            #      paths with a '#' inside are words like any other
+            from behave.configuration import Configuration as _Cfg2
+            from behave.tag_expression import TagExpressionProtocol as _TEP2
+            for _ in range(6):
+                pat_ = rng.choice(["#12", "Issue.#12", "e.#1.l", "S1", "a#b"])
+                path_ = rng.choice(["features/c#/sharp.feature:6", "features/doc0_0.feature:3", "features/issue#7.feature", "features"])
+                line_ = rng.choice(["--name=%s %s", "-n %s %s", "%s --name=%s"])
+                line_ = line_ % ((pat_, path_) if line_.startswith("-") else (path_, pat_))
+                mon.case(("string-command-line", line_), True)
+                try:
+                    cfg2 = _Cfg2(line_, load_config=False)
+                    mon.seen("command_line_given_as", "one_string_with_hash_words")
+                    mon.check("locparser.one_string_command_line", list(cfg2.name or []) == [pat_] and list(cfg2.paths) == [os.path.normpath(path_)],
+                              lambda: dict(command_line=line_, name=cfg2.name, paths=cfg2.paths, want_name=[pat_], want_paths=[os.path.normpath(path_)]))
+                except BaseException as ex:
+                    mon.check("locparser.one_string_command_line", False, lambda: dict(command_line=line_, error=repr(ex)))
+                finally:
+                    _TEP2.use(_TEP2.DEFAULT)
             # ---- FileLocationParser ------------------------------------------------------------------------
             for _ in range(40):
                 path = rng.choice(["features/a.feature", "a b/c d.feature", "C:/x/y.feature", "ünï/ß.feature", "x.feature", "dir.with.dots/f.feature", "a:b.feature"])
